@@ -438,6 +438,13 @@ pub fn random_behaviour(r: &mut Rng, t: &mut Trace, steps: usize) {
                     }
                     _ => {
                         t.run(&mut w, json!({"op": "q_fac_pair", "infos": [nat("uc"), a0.clone()]}));
+                        if r.chance(1, 3) {
+                            // ownership round trip, each leg possibly combined with code ids
+                            let (tc, pc) = match r.below(3) { 0 => (nul(), nul()), 1 => (json!(4), nul()), _ => (json!(4), json!(2)) };
+                            t.run(&mut w, json!({"op": "fac_update_config", "caller": "owner", "new_owner": "newowner", "token_code_id": tc, "pair_code_id": pc}));
+                            t.run(&mut w, json!({"op": "fac_add_native", "caller": "owner", "denom": "uc", "decimals": 3}));
+                            t.run(&mut w, json!({"op": "fac_update_config", "caller": "newowner", "new_owner": "owner", "token_code_id": pc.clone(), "pair_code_id": nul()}));
+                        }
                     }
                 }
             }
@@ -498,7 +505,9 @@ fn malformed(r: &mut Rng, t: &mut Trace, w: &mut World, i: usize) {
             let attached = match r.below(4) { 0 => 0, 1 => amount - 1, 2 => amount + 1, _ => amount * 2 };
             let mut funds = vec![];
             if attached > 0 { funds.push(json!([id_of(&o), st(attached)])); }
-            json!({"op": "pair_swap", "pair": paddr, "caller": who, "offer": asset(&o, amount), "bp": nul(), "ms": nul(), "to": nul(), "funds": funds})
+            // sometimes the declared amount is zero while coins are attached
+            let declared = if r.chance(1, 4) { 0 } else { amount };
+            json!({"op": "pair_swap", "pair": paddr, "caller": who, "offer": asset(&o, declared), "bp": nul(), "ms": nul(), "to": nul(), "funds": funds})
         }
         1 if !natives.is_empty() => {
             // correct funds plus an unrelated coin
@@ -665,7 +674,7 @@ pub fn matrix_behaviour(r: &mut Rng, t: &mut Trace) {
             let other = if *delivered == infos[0] { infos[1].clone() } else { infos[0].clone() };
             let flipped = if is_native(&other) { foreign.clone() } else { nat(&w.resolve(&id_of(&other))) };
             for named in [infos[0].clone(), infos[1].clone(), foreign.clone(), flipped.clone()].iter() {
-                for named_amt in [amount, amount + 1, amount - 1] {
+                for named_amt in [amount, amount + 1, amount - 1, 0] {
                     if is_native(delivered) {
                         for funds_kind in 0..5 {
                             // only a sample of the full cross product per run, all of it over seeds
@@ -725,6 +734,7 @@ pub fn matrix_behaviour(r: &mut Rng, t: &mut Trace) {
         for role in roles.iter() {
             let ops = vec![
                 json!({"op": "fac_update_config", "caller": role, "new_owner": nul(), "token_code_id": nul(), "pair_code_id": nul()}),
+                json!({"op": "fac_update_config", "caller": role, "new_owner": nul(), "token_code_id": 4, "pair_code_id": 2}),
                 json!({"op": "fac_add_native", "caller": role, "denom": "uc", "decimals": 9 + phase}),
                 json!({"op": "fac_migrate_pair", "caller": role, "contract": p0, "code_id": nul()}),
                 json!({"op": "fac_create_pair", "caller": role, "infos": [nat("uc"), nat("ua")], "commission": nul(), "whitelist": ["alice"], "min0": st(0), "min1": st(0)}),
@@ -756,7 +766,10 @@ pub fn matrix_behaviour(r: &mut Rng, t: &mut Trace) {
             }
         }
         if phase == 0 {
-            t.run(&mut w, json!({"op": "fac_update_config", "caller": "owner", "new_owner": "newowner", "token_code_id": nul(), "pair_code_id": nul()}));
+            // hand the factory over; the same message may also carry (unchanged) code ids
+            let (tc, pc) = match r.below(4) { 0 => (json!(4), nul()), 1 => (nul(), json!(2)), _ => (json!(4), json!(2)) };
+            t.run(&mut w, json!({"op": "fac_update_config", "caller": "owner", "new_owner": "newowner", "token_code_id": tc, "pair_code_id": pc}));
+            t.run(&mut w, json!({"op": "q_fac_config"}));
         }
     }
 }
